@@ -423,3 +423,57 @@ Print Assumptions C14_max_fails_accepted_iff.
 Example C14_max_fails_stored_nonvacuous :
   parse_max_fails 2147483647 = Some 2147483647 /\ parse_max_fails 4294967296 = None.
 Proof. vm_compute. split; reflexivity. Qed.
+
+(* ===== The client goes away (its request's context is cancelled) — at ANY point ===== *)
+(* [LCancel t] is a step of the transition system, enabled wherever request t is as long as it has not
+   returned; every theorem above about reachable states therefore also covers every schedule in which
+   clients disconnect before Select, inside it, in the window, inside acquireConn, during the forward
+   or while waiting in the retry loop.  The disconnect itself moves nothing: *)
+Theorem C14_cancel_moves_no_counter :
+  forall c pol s t s', step c pol s (LCancel t) = Some s' -> s' = s.
+Proof. exact cancel_moves_nothing. Qed.
+Print Assumptions C14_cancel_moves_no_counter.
+
+Theorem C14_cancel_possible_at_every_point :
+  forall c pol s t p, nth_error (threads s) t = Some p -> is_done p = false -> step c pol s (LCancel t) = Some s.
+Proof. exact cancel_enabled_while_alive. Qed.
+Print Assumptions C14_cancel_possible_at_every_point.
+
+(* Whether and when clients go away changes no counter, no failure record and no request's path:
+   erasing the disconnects from any schedule yields a schedule with the same final state. *)
+Theorem C14_cancels_change_nothing :
+  forall c pol ls s s',
+  run c pol s ls = Some s' -> run c pol s (filter (fun l => negb (is_cancel l)) ls) = Some s'.
+Proof. exact run_without_cancels. Qed.
+Print Assumptions C14_cancels_change_nothing.
+
+(* A request whose client is ALREADY gone when its attempt begins still takes its slot and enters the
+   forward call; when the call comes back with context.Canceled the slot is given back, the client is
+   answered 499 and no failure is recorded.  (C14-m7 returns 499 between the successful acquireConn and
+   the deferred release: the request ends in Done with the slot still taken, Conns stays one above the
+   number of forwarded requests for ever.) *)
+Theorem C14_gone_request_holds_and_releases :
+  forall c pol s t h s1 s2 s3,
+  nth_error (threads s) t = Some (Selected (Some h)) -> full c s h = false ->
+  step c pol s (LCancel t) = Some s1 -> acquire c pol s1 t = Some s2 ->
+  step c pol s2 (LFinish t OCancel) = Some s3 ->
+  nth_error (threads s2) t = Some (Forwarding h) /\ conns s2 h = conns s h + 1 /\
+  nth_error (threads s3) t = Some (Done 499) /\ conns s3 h = conns s h /\
+  fails s3 = fails s2 /\ flog s3 = flog s2.
+Proof. exact gone_request_holds_and_releases. Qed.
+Print Assumptions C14_gone_request_holds_and_releases.
+
+(* request 0 holds the only slot, request 1 waits in the retry loop and its client leaves, request 0
+   is answered, request 1 selects the backend: the hypotheses hold there, and at the end both counters
+   are zero with both requests gone *)
+Example C14_gone_request_holds_and_releases_nonvacuous :
+  match run cfg_cap1 (pol_std 1) (init 0 healthy) sched_gone_waiter with
+  | Some s2 =>
+      nth_error (threads s2) 1 = Some (Forwarding 0) /\ conns s2 0%nat = 1 /\
+      match step cfg_cap1 (pol_std 1) s2 (LFinish 1 OCancel) with
+      | Some s3 => threads s3 = [Done 0; Done 499] /\ conns s3 0%nat = 0 /\ fails s3 0%nat = 0
+      | None => False
+      end
+  | None => False
+  end.
+Proof. vm_compute. repeat split; reflexivity. Qed.
